@@ -162,6 +162,10 @@ func faultsApplicable(c *world.Call, kinds []string) []string {
 			if c.Verb == "create" {
 				out = append(out, k)
 			}
+		case world.FExistsOther:
+			if c.Verb == "create" && c.Resource == "statefulsets" {
+				out = append(out, k)
+			}
 		}
 	}
 	return out
